@@ -24,6 +24,24 @@ pub mod verif {
         gather, idct_channel, inverse_rle, mv_decode, predict_candidate, DecodedPicture,
     };
     pub use crate::parser::verif as tables;
+
+    use std::cell::RefCell;
+
+    thread_local! {
+        static MB_LOG: RefCell<Vec<(usize, usize)>> = const { RefCell::new(Vec::new()) };
+    }
+
+    /// Records one iteration of the macroblock loop: `(reader bit position,
+    /// macroblocks decoded so far)`. Thread-local, so it never couples
+    /// decoder instances running on different threads.
+    pub(crate) fn mb_iteration(bit_position: usize, macroblocks: usize) {
+        MB_LOG.with(|l| l.borrow_mut().push((bit_position, macroblocks)));
+    }
+
+    /// Drains the events recorded on the calling thread.
+    pub fn take_mb_log() -> Vec<(usize, usize)> {
+        MB_LOG.with(|l| std::mem::take(&mut *l.borrow_mut()))
+    }
     pub mod types {
         pub use crate::types::*;
     }
